@@ -573,3 +573,59 @@ theorem convertRoot_eq_named (t t' : Node) (h : convertRoot t = .ok t') : t' = n
     exact convert_eq_named true t _ hc
 
 end HdVerif.SRTree
+
+namespace HdVerif.SRTree
+open HdVerif
+
+/-! ## the parsers change no value (over the regenerated table of their stores) -/
+
+/-- every store of every content item parser (and of the helpers they call on the data set) is one of the four the model
+knows: the class change, the default concept name, the conversion of the children, the re-wrap of a code sequence item -/
+theorem parser_stores_known :
+    (Gen.srParserStores.all fun r => ["class", "default-name", "children", "rewrap"].contains r.2.2.2.2) = true ∧
+    Gen.srParserOtherCalls = [] := by
+  decide +kernel
+
+theorem unknownStores_nil (cls kw : String) : unknownStores cls kw = [] := by
+  unfold unknownStores
+  have h := List.all_eq_true.mp parser_stores_known.1
+  have : (Gen.srParserStores.filter fun r =>
+      (r.1 == cls || r.1 == "ContentItem" || r.1.startsWith "helper:") && r.2.2.1.head? == some kw &&
+        !(["class", "default-name", "children", "rewrap"].contains r.2.2.2.2)) = [] := by
+    apply List.filter_eq_nil_iff.mpr
+    intro r hr
+    have := h r hr
+    simp only [this, Bool.not_true, Bool.and_false, Bool.false_eq_true, not_false_eq_true]
+  rw [this]
+  rfl
+
+theorem storedAttrs_id (X : String → String → String) (a : Attrs) : storedAttrs X a = a := by
+  unfold storedAttrs
+  simp only [unknownStores_nil, List.foldl_nil]
+  exact List.map_id' a
+
+mutual
+theorem reStore_id (X : String → String → String) : ∀ t : Node, reStore X t = t
+  | .mk a hs ch => by
+    unfold reStore
+    rw [storedAttrs_id, reStoreList_id X ch]
+theorem reStoreList_id (X : String → String → String) : ∀ l : List Node, reStoreList X l = l
+  | [] => by unfold reStoreList; rfl
+  | x :: xs => by
+    unfold reStoreList
+    rw [reStore_id X x, reStoreList_id X xs]
+end
+
+theorem convertRootT_eq (X : String → String → String) (t : Node) : convertRootT X t = convertRoot t := by
+  unfold convertRootT
+  cases convertRoot t with
+  | error e => rfl
+  | ok t' => simp [Except.map, reStore_id]
+
+theorem parseDocT_eq (X : String → String → String) (d : Node) : parseDocT X d = parseDoc d := by
+  unfold parseDocT
+  cases parseDoc d with
+  | error e => rfl
+  | ok t' => simp [Except.map, reStore_id]
+
+end HdVerif.SRTree
